@@ -7,6 +7,7 @@
 import Psa.Generated.Funcs
 import Psa.Model.Encoding
 import Psa.Cbor.Head
+import Psa.Proofs.EncRead
 namespace Psa.Tie.Enc
 open Psa Psa.Model.Enc
 
@@ -83,23 +84,7 @@ theorem gen_header_eq (n : Nat) (h : n < 2 ^ 32) : Generated.toCBORHeader n = Cb
     have : n % 4294967296 = n := by omega
     simp [h0, h1, h2, h2', h3, h3', h4, this]
 
-theorem model_header_eq (n : Nat) (h : n < 2 ^ 32) : mapHeader n = Cbor.encHead 5 n := by
-  unfold mapHeader Cbor.encHead
-  by_cases h0 : n = 0
-  · subst h0; simp
-  by_cases h1 : n < 24
-  · simp [h0, h1]
-  by_cases h2 : n < 256
-  · have h2' : n ≤ 255 := by omega
-    simp [h0, h1, h2, h2']
-  by_cases h3 : n < 65536
-  · have h2' : ¬ n ≤ 255 := by omega
-    have h3' : n ≤ 65535 := by omega
-    simp [h0, h1, h2, h2', h3, h3']
-  · have h2' : ¬ n ≤ 255 := by omega
-    have h3' : ¬ n ≤ 65535 := by omega
-    have h4 : n < 4294967296 := by omega
-    simp [h0, h1, h2, h2', h3, h3', h4]
+theorem model_header_eq (n : Nat) (h : n < 2 ^ 32) : mapHeader n = Cbor.encHead 5 n := Psa.Proofs.Enc.mapHeader_eq_encHead n h
 
 theorem gen_header_eq_model (n : Nat) (h : n < 2 ^ 32) : Generated.toCBORHeader n = mapHeader n := by
   rw [gen_header_eq n h, model_header_eq n h]
